@@ -380,26 +380,26 @@ class DocGen:
         return regs
 
     def sweep_registers(self, s):
-        """register section of a sweep document (s = its seed): three tables whose widths are 3 of the 12 classes
-        WCLS around the width left behind the register name (s, s+4, s+8: every 4 consecutive widths/seeds see all
-        12; every triple has a class in the band (available, line width - 2]), one of them with a :w column; a list
-        and a plain description that end at / just short of that width"""
+        """register section of a sweep document (s = its seed): two tables whose widths are 2 of the 12 classes
+        WCLS around the width left behind the register name (s, s+6: every 6 consecutive widths/seeds see all 12;
+        every pair has a class in the band (available, line width - 2]), in 2 of 3 documents one of them with a :w
+        column; and a list or a plain description that ends at / just short of that width"""
         rng = self.rng
-        regs = self.reg_heads(5, ['none', 'long', 'short', 'mixed'][s % 4])
+        regs = self.reg_heads(3, ['none', 'long', 'short', 'mixed'][s % 4])
         top = self.conf['W'] - 2
         for i, (reg, (aa, sa)) in enumerate(zip(regs, reg_avails(self.conf, regs))):
             pos = POSITIONS[(s + i) % 4]
-            if i < 3:
-                cls = WCLS[(s + 4 * i) % 12]
+            if i < 2:
+                cls = WCLS[(s + 6 * i) % 12]
                 wrap = (s // 3) % 3 == i
                 reg['para'] = self.placed_block(cls, aa, top, wrap, pos, (s + i) % 3)
                 reg['cls'] = 'tab:%s:%s' % (cls, 'wrap' if wrap else 'exact')
-            elif i == 3:
+            elif (s // 2) % 2:
                 reg['para'] = self.placed_block('list', aa, top, False, pos, s % 3)
                 reg['cls'] = 'list'
             else:
                 tool, av = [('asm', aa), ('skool', sa)][s % 2]
-                lens = tight_lengths(rng, av, rng.randint(1, 3), max(1, av - (s // 2) % 3)) or self.rand_lens(1, 30)
+                lens = tight_lengths(rng, av, rng.randint(1, 3), max(1, av - (s // 4) % 3)) or self.rand_lens(1, 30)
                 reg['para'] = [('t', self.words(lens))]
                 reg['cls'] = 'tight-' + tool
         return regs
@@ -667,12 +667,12 @@ def flat(para):
     return [t for toks, _ in skool_tokens(para) for t in toks]
 
 
-def split_lines(rng, toks):
+def split_lines(rng, toks, sizes=(1, 2, 3, 5, 8, 12, 20)):
     """break a token list into input lines at random places"""
     lines = []
     i = 0
     while i < len(toks):
-        n = rng.choice([1, 2, 3, 5, 8, 12, 20])
+        n = rng.choice(sizes)
         lines.append(' '.join(toks[i:i + n]))
         i += n
     return lines
@@ -762,7 +762,8 @@ def render_skool(doc, rng):
         if ent['regs']:
             sec = []
             for reg in ent['regs']:
-                lines = split_lines(rng, flat(reg['para']))
+                toks = flat(reg['para'])
+                lines = split_lines(rng, toks, (1, 2, 3, 5, 8, 12, 20) if len(toks) <= 30 else (3, 8, 12, 20, 30))
                 sec.append(reg_head(reg) + ' ' + lines[0])
                 for line in lines[1:]:
                     sec.append('.' + ' ' * rng.choice([1, 1, 3]) + line)
